@@ -33,3 +33,7 @@ claim("C18", "exhaustive enumeration of terms/patterns (round trip) and of all s
       "Every term/pattern of size <=3 (thorough 4) of four languages built with enum constructors is printed and parsed back (also in three substitution-bracket wrappings and as 1-2 equation multi-patterns); every prefix/suffix/token edit/splice/multi-byte insertion of every valid text and every token string of length <=5 (6) over a 13-token alphabet goes through Pattern::parse, RecExpr::parse, MultiPattern::parse under catch_unwind; accepted values must be well formed and re-parse.",
       "Payload values restricted to unambiguous ones as the statement says; byte strings are bounded to the mutation operators listed.",
       "DESIGN.md 5 C18")
+claim("C09", "bounded-exhaustive enumeration of operation histories on the real e-graph followed by exhaustive probe enumeration, judged by a ground congruence closure with inserted terms marked",
+      "For every explored history (all multisets of <=3 (thorough 4) operations over the alphabets, every ordering) every tracked (sub)term is probed literally, alpha-renamed, under every injective renaming into two 4-name pools, in five one-level wrappings and two shadowing forms: lookup/lookup_rec_expr succeed iff the reference says represented, modify nothing, are equivariant, agree with add_expr; add_expr of a represented term creates nothing; result slots are the free slots minus oracle-redundant ones; absent terms create a class.",
+      "Same oracle trust as C01; after the first absent probe is inserted the iff-comparison is skipped.",
+      "DESIGN.md 3.2, 5 C09")
